@@ -24,8 +24,9 @@ MANIFEST = dict(
          "time the per-tick player spends in the row (exact rational time, before the int truncation); inside a pattern scan and player "
          "run in lockstep (same row trace, same exact clock); check_end_of_module increments the loop counter exactly when the visit "
          "budget of the scan's end point is exhausted. NOT proved: the composition across orders (next_order vs the scan's order loop, "
-         "restart / entry point logic, jump rows) and the fuel bound of the scan; these are covered by the correspondence only "
-         "(the driver evaluates rowTrace(Play.run) = Scan trace and fuelOut = false on every generated module). "
+         "restart / entry point logic, jump rows); this is covered by the correspondence only (the driver evaluates "
+         "rowTrace(Play.run) = Scan trace on every generated module). Proved in full: the scan's order loop terminates within "
+         "(len+1)*514+1 iterations (C18_scan_terminates). "
          "The model is tied to src/scan.c, src/player.c, src/effects.c on every run by a differential correspondence on modules "
          "written in all four formats and loaded by the real loaders, and a direct oracle on the real library.",
     note="Trusted: Lean kernel (axioms propext/Classical.choice/Quot.sound only), the hand-written model XmpModel/LinFlow.lean, "
@@ -37,7 +38,8 @@ MANIFEST = dict(
     design_ref="DESIGN.md section 4 C18",
 )
 REQUIRED = ["Xmp.LinFlow.C18_tick_exact", "Xmp.LinFlow.C18_row_accounting", "Xmp.LinFlow.C18_play_row",
-            "Xmp.LinFlow.C18_scan_eq_play_partial", "Xmp.LinFlow.C18_loop_count_partial"]
+            "Xmp.LinFlow.C18_scan_eq_play_partial", "Xmp.LinFlow.C18_loop_count_partial",
+            "Xmp.LinFlow.C18_scan_terminates"]
 
 FORMATS = ("mod", "xm", "s3m", "it")
 
@@ -347,7 +349,8 @@ def compare(real, model):
                 return "row differs: real=%r model=%r" % (a, b)
             if abs(int(fa[8]) - int(fb[8])) > 2 + int(fa[1]) // 1000:
                 return "row start time differs: real=%r model=%r" % (a, b)
-            if abs(int(fa[9]) - int(fb[9])) > 1001:
+            # frame_info.time is an int (ms) built on the int-truncated xxo_info[].time: compare whole ms, +-1
+            if abs(int(fa[9]) // 1000 - int(fb[9]) // 1000) > 1:
                 return "frame_info.time differs: real=%r model=%r" % (a, b)
         else:
             if fa != fb:
@@ -606,7 +609,7 @@ def run(ck):
     ck.assumptions += [
         "time_factor = 10, rrate = 250, XMP_FLAGS_VBLANK off (checked per module by the harness)",
         "patterns have 1..256 rows (row_limit 512 of the scan is then unreachable without loops; checked per module)",
-        "IEEE double sums are compared with tolerance (2 us + 1 us per 100000 frames; 1 ms on int-truncated values)",
+        "IEEE double sums are compared with tolerance (2 us + 1 us per 100000 frames / 1000 rows; +-1 on int-truncated ms values)",
     ]
     if not ck.violations and not ck.unproved_items:
         shutil.rmtree(wd, ignore_errors=True)
